@@ -995,7 +995,7 @@ func init() {
 // on the listener still returns.
 func c16ManyStalled(w *W) {
 	kind := []string{"pull", "bus", "sub", "pair", "xrep", "xsurveyor", "star", "rep"}[w.Choose(simrt.SShape, 8)]
-	tran := w.simFallback([]string{"sim", "simipc", "tcp", "ipc", "tls+tcp"}[w.Choose(simrt.SShape, 5)])
+	tran := w.simFallback([]string{"sim", "simipc", "tcp", "ipc", "tls+tcp", "ws", "wss"}[w.Choose(simrt.SShape, 7)])
 	nstall := 8 + w.Choose(simrt.SShape, 41)
 	w.SetShape("kind", kind)
 	w.SetShape("tran", tran)
@@ -1031,7 +1031,7 @@ func c16ManyStalled(w *W) {
 			return
 		}
 		w.Fault("hs-stall")
-		if tran != "tls+tcp" {
+		if tran != "tls+tcp" && tran != "ws" && tran != "wss" {
 			if n := w.Choose(simrt.SProg, 8); n > 0 {
 				c.Write(wcHeader(peerProto)[:n])
 			}
